@@ -47,6 +47,14 @@ def cases(tier, seed):
         for usage in (254, 255):
             for spec in (0, 1, 3):
                 cs.append({'t': 'foreign', 'key': name, 'usage': usage, 'spec': spec, 'cipher': r.choice([7, 9, 3, 2, 11]), 'halg': r.choice([2, 8, 10, 1]), 'cnt': r.choice([0, 0x10, 0x60])})
+    # foreign keys under each of the passphrase classes, with small iteration counts (a passphrase longer than the count is hashed whole)
+    for j, pwk in enumerate(PASSES):
+        for n_, name in enumerate(('ed25519_0', 'rsa1024_0', 'ecdsa_p256_0', 'cv25519_0')):
+            cs.append({'t': 'foreign', 'key': name, 'usage': [254, 255][(j + n_) % 2], 'spec': [3, 3, 1, 0][(j + n_) % 4], 'cipher': [7, 9, 3, 11][(j + n_) % 4], 'halg': [8, 2, 10][(j + n_) % 3],
+                       'cnt': [0, 1, 0x10][(j + n_) % 3], 'pw': pwk})
+            if pwk == 'long':
+                # iterated, count 1024 < salt + passphrase (1032 octets)
+                cs[-1].update({'spec': 3, 'cnt': 0})
         cs.append({'t': 'gnu', 'key': name, 'ext': 1})
         cs.append({'t': 'gnu', 'key': name, 'ext': 2})
     for h in range(12 if tier == 'quick' else 240):
@@ -263,6 +271,9 @@ def _protect(ctx, d, pgpy):
 def _foreign_blob(d):
     m = pool.mat(d['key'])
     pw = b'foreign pass'
+    if d.get('pw'):
+        pw = PASSES[d['pw']]
+        pw = pw.encode('utf-8') if isinstance(pw, str) else pw
     cipher = d['cipher']
     prot = dict(usage=d['usage'], cipher=cipher, s2k=(d['spec'], d['halg'], b'\x01\x02\x03\x04\x05\x06\x07\x08', d['cnt']), iv=bytes(range(1, 1 + sym.blocksize(cipher))), passphrase=pw)
     body = RK.sec_body(m, prot)
@@ -288,8 +299,16 @@ def _foreign(ctx, d, pgpy):
         ctx.nontrivial(d)
         return
     # identity needed for operations: certify inside the scope
+    right = PASSES[d['pw']] if d.get('pw') else 'foreign pass'
+    wrongs = ['foreign pass x'] if not d.get('pw') else [right[:-1], right + (b'x' if isinstance(right, bytes) else 'x'), right[:len(right) // 2]]
     try:
-        with k.unlock('foreign pass x'):
+        for w_ in wrongs[1:]:
+            try:
+                with k.unlock(w_):
+                    ctx.fail('wrong-passphrase-unlocks', {'case': d, 'wrong': repr(w_)[:40]})
+            except PGPDecryptionError:
+                ctx.count('wrong_passphrase_rejected')
+        with k.unlock(wrongs[0]):
             ctx.fail('wrong-passphrase-unlocks', {'case': d})
     except PGPDecryptionError:
         ctx.count('wrong_passphrase_rejected')
@@ -297,7 +316,7 @@ def _foreign(ctx, d, pgpy):
         ctx.outcome('wrong_passphrase_error:' + type(e).__name__)
         ctx.count('wrong_passphrase_rejected')
     try:
-        with k.unlock('foreign pass'):
+        with k.unlock(right):
             if not k.is_unlocked:
                 ctx.fail('right-passphrase-does-not-unlock', {'case': d})
             for f in RK.SECF[m['alg']]:
